@@ -9,6 +9,18 @@ CHECKS = {
          "Every workload of up to N packets (gaps incl. same-step/same-instant/coinciding with transmission ends) over 6 schedulers x tables x rates x flow-to-class maps is executed on the real code; departure instants, per-flow order, counters after every kernel step and Monitor samples are compared with an exact reference. Complete within the stated bounds, nothing sampled.",
          "bounds: N<=3/4 packets full menu, N<=4/5 reduced; dyadic rates/sizes so float arithmetic is exact; reference model in harness/sched.py is trusted",
          "DESIGN.md 3 C12"),
+ "C13": ("exhaustive enumeration of arrival workloads against the real SP scheduler; strictness checked at every service start with the D/M visibility rule",
+         "Every workload of up to N packets over every priority table (2-3 flows, ties, all orderings) is executed on the real SP; at each reconstructed service start the served packet's priority is compared with every packet definitely waiting. Complete within the bounds.",
+         "bounds: N<=4/5 (2 flows), N<=3/4 full and 5/6 burst menus (3 flows); positive integer priorities; D/M rule (DESIGN 2.4) decides which same-instant arrivals count as waiting",
+         "DESIGN.md 3 C13"),
+ "C14": ("exhaustive enumeration of workloads against real WFQ/VC; stamps recomputed in exact rationals from the observed history, nondeterministic reference for same-instant emptying",
+         "Every workload of up to N packets over weight/vtick tables, rates and flow-to-class maps, plus equal-stamp bursts over 4-6 classes and static backlogs, is executed on the real WFQ and VC; each service decision must pick the minimal (stamp, arrival) among the definitely-waiting packets under some admissible reading; static backlogs are checked against the normalised-service bound.",
+         "bounds: N<=3/4 full, 4/5 reduced, static backlogs to 5/6; tolerance 1e-9 on non-dyadic stamps; reference in harness/c14.py trusted",
+         "DESIGN.md 3 C14"),
+ "C15": ("exhaustive enumeration of workloads against real DRR/RR/WRR; nondeterministic round-robin reference automata, credits read at settled points",
+         "Every workload of up to N packets (sizes below/at/above the quanta) and static backlogs is executed on the real DRR, RR and WRR; the departure order must be explained by some run of the cyclic-visit automaton, DRR credits at settled points must match it and stay in [0, Q+Lmax), and the fairness bound is evaluated over every interval in which two classes stay backlogged.",
+         "bounds: DRR N<=3/4 full menu, 4/5 reduced, backlogs 6/8; RR/WRR N<=4/5, bursts to 7/9; pointer position after idle and same-instant visibility are forked, so only orders no admissible run explains are reported",
+         "DESIGN.md 3 C15"),
 }
 ALL = ["C%02d" % i for i in range(1, 21)]
 def main():
